@@ -48,12 +48,13 @@ Proof. intros wl t k H env truthy. unfold restricted_eval. now rewrite H. Qed.
 Theorem c24_eval_only_if_all_whitelisted : forall env truthy wl t tr o,
   restricted_eval env truthy wl (Some t) = (tr, o) ->
   (forall k, o <> Rejected k) ->
-  forallb (whitelisted wl) (preorder t) = true /\ py_eval env truthy t = (tr, o).
+  forallb (whitelisted wl) (preorder t) = true /\
+  (in_fragment t = true -> py_eval env truthy t = (tr, o)).
 Proof.
   intros env truthy wl t tr o H Hn. unfold restricted_eval in H.
   destruct (first_bad wl t) as [k|] eqn:E.
   - injection H as <- <-. exfalso. now apply (Hn k).
-  - split; [now apply accepted_iff|exact H].
+  - split; [now apply accepted_iff|]. intros F. now rewrite F in H.
 Qed.
 
 (* With CompletionEvaluator's whitelist (as it is in /repo now) every accepted
@@ -65,6 +66,19 @@ Theorem c24_completion_accepts_only_boolop_names : forall t,
   first_bad completion_whitelist t = None ->
   Forall (fun k => In k ["Expression"; "Name"; "Load"; "BoolOp"; "And"; "Or"]) (preorder t).
 Proof. exact completion_accepts_only_safe. Qed.
+
+(* ... hence an accepted completion expression is always inside the fragment
+   whose evaluation is modelled, and its outcome is [py_eval]'s *)
+Theorem c24_completion_accepted_is_evaluated : forall env truthy t,
+  binop_wf operator_kinds t = true ->
+  first_bad completion_whitelist t = None ->
+  restricted_eval env truthy completion_whitelist (Some t) = py_eval env truthy t.
+Proof.
+  intros env truthy t Hwf Hacc. apply restricted_eval_accepted; [exact Hacc|].
+  pose proof (completion_accepts_only_safe t Hwf Hacc) as F.
+  unfold in_fragment. apply forallb_forall. intros k Hk.
+  rewrite Forall_forall in F. apply mem_str_In. exact (F k Hk).
+Qed.
 
 (* calls, lambdas, comprehensions, walrus, f-strings, await/yield, starred and
    conditional expressions are rejected by BOTH of cylc's evaluators, and
@@ -98,7 +112,8 @@ Theorem c24_value_depends_only_on_named_variables : forall e1 e2 truthy wl t,
   restricted_eval e1 truthy wl (Some t) = restricted_eval e2 truthy wl (Some t).
 Proof.
   intros e1 e2 truthy wl t H. unfold restricted_eval.
-  destruct (first_bad wl t); [reflexivity|]. now apply py_eval_ext.
+  destruct (first_bad wl t); [reflexivity|].
+  destruct (in_fragment t); [|reflexivity]. now apply py_eval_ext.
 Qed.
 
 (* ... the literal claim — every value is one of the supplied objects, every
